@@ -1184,13 +1184,21 @@ def render_arg(m, a, plus, out):
             if plus and v >= 0:
                 s = '+' + s
             out.extend(ord(c) for c in s)
-    elif t in ('&str', 'str'):
+    elif t in ('&str', 'str', 'std::string::String', 'String', '&std::string::String'):
         out.extend(str_items(v))
+    elif t in ('num_bigint::BigInt', 'BigInt', 'num_bigint::BigUint', 'BigUint', '&num_bigint::BigInt', '&num_bigint::BigUint'):
+        st = big_to_str_radix(m, None, [Ref([v], 0), 10], None, None)
+        out.extend(st.items)
     else:
-        raise Unsupported('render arg of type ' + t)
+        # a type of the crate: run its own Display/Debug body on a fresh formatter with default options
+        f = FmtV()
+        trait = 'std::fmt::Display' if a.kind == 'display' else 'std::fmt::Debug'
+        tt = t[1:] if t.startswith('&') and not isinstance(a.ref.get(), Ref) else t
+        m.call('<%s as %s>::fmt' % (tt, trait), [a.ref, Ref([f], 0)], ['&' + tt, '&mut Formatter'], 'Result<(), Error>')
+        out.extend(f.out)
 
 
-@summary(r"<std::string::String as std::fmt::Write>::write_fmt")
+@summary(r"<(?:std::string::)?String as std::fmt::Write>::write_fmt")
 def string_write_fmt(m, mt, args, tys, dty):
     s = deref(args[0])
     a = args[1]
@@ -1997,3 +2005,111 @@ for _i, (_n, _rx, _fn) in enumerate(SUMMARIES):
             bits = {'u8': 8, 'u16': 16, 'u32': 32, 'u64': 64, 'u128': 128, 'usize': 64}[mt.group(1)]
             return trailing_zeros_fork(m, args[0], bits)
         SUMMARIES[_i] = (_n, _rx, _tz)
+
+
+
+@summary(r'<(?:std::string::)?String as std::fmt::Write>::write_str')
+def string_write_str(m, mt, args, tys, dty):
+    deref(args[0]).items.extend(str_items(args[1]))
+    return mk_enum('Result', 'Ok', [UNIT()])
+
+
+@summary(r'<(?:std::string::)?String as std::fmt::Write>::write_char')
+def string_write_char(m, mt, args, tys, dty):
+    c = args[1]
+    deref(args[0]).items.append(ord(c) if isinstance(c, str) else c)
+    return mk_enum('Result', 'Ok', [UNIT()])
+
+
+@summary(r'Result::<.*>::expect')
+def result_expect(m, mt, args, tys, dty):
+    r = args[0]
+    if r.variant == 'Err':
+        raise Panic('ExpectErr', 'expect on Err')
+    return r.fields[0]
+
+
+@summary(r'<(?:num_bigint::)?Big(?:Int|Uint) as std::string::ToString>::to_string')
+def big_to_string(m, mt, args, tys, dty):
+    return big_to_str_radix(m, None, [args[0], 10], tys, dty)
+
+
+@summary(r'core::num::<impl (%s)>::rem_euclid' % INT)
+def int_rem_euclid(m, mt, args, tys, dty):
+    x, y = args
+    if is_sym(y):
+        raise Unsupported('rem_euclid by a symbolic modulus')
+    if not is_sym(x):
+        return x % abs(y)
+    q, r = m.fresh('eq'), m.fresh('er')
+    m.assume(z3.And(x == q * abs(y) + r, r >= 0, r < abs(y)))
+    return r
+
+
+@summary(r'<str as Index<(?:std::ops::)?RangeTo<usize>>>::index#dup')
+def _unused_idx(m, mt, args, tys, dty):
+    pass
+
+
+def _pattern_codes(pat):
+    pat = deref(pat)
+    if isinstance(pat, str):
+        return [ord(c) for c in pat] if len(pat) == 1 else None
+    if isinstance(pat, int):
+        return [pat]
+    if isinstance(pat, (list, SliceV)):
+        items = pat if isinstance(pat, list) else pat.base[pat.lo:pat.hi]
+        return [ord(p) if isinstance(p, str) else p for p in items]
+    return None
+
+
+@summary(r'core::str::<impl str>::(starts_with|ends_with)::<(char|&\[char\]|\[char; \d+\])>')
+def str_starts_with_char(m, mt, args, tys, dty):
+    it = str_items(args[0])
+    pats = _pattern_codes(args[1])
+    if pats is None:
+        raise Unsupported('starts_with pattern')
+    if not it:
+        return False
+    c = it[0] if mt.group(1) == 'starts_with' else it[-1]
+    for p in pats:
+        r = char_eq(m, c, p)
+        if r is None:
+            raise Unsupported('starts_with on an integer rendering')
+        if r:
+            return True
+    return False
+
+
+@summary(r'core::str::<impl str>::contains::<(char|&\[char\])>')
+def str_contains_char(m, mt, args, tys, dty):
+    it = str_items(args[0])
+    pats = _pattern_codes(args[1])
+    for c in it:
+        for p in pats:
+            r = char_eq(m, c, p)
+            if r is None:
+                raise Unsupported('contains on an integer rendering')
+            if r:
+                return True
+    return False
+
+
+@summary(r'core::str::<impl str>::(as_bytes|bytes)')
+def str_as_bytes(m, mt, args, tys, dty):
+    sl = str_slice(args[0])
+    return sl if mt.group(1) == 'as_bytes' else IterV(sl)
+
+
+@summary(r'core::str::<impl str>::(trim_start_matches|trim_end_matches)::<char>')
+def str_trim_matches_char(m, mt, args, tys, dty):
+    sl = str_slice(args[0])
+    p = _pattern_codes(args[1])[0]
+    lo, hi = sl.lo, sl.hi
+    if mt.group(1) == 'trim_start_matches':
+        while lo < hi and char_eq(m, sl.base[lo], p):
+            lo += 1
+    else:
+        while hi > lo and char_eq(m, sl.base[hi - 1], p):
+            hi -= 1
+    return SliceV(sl.base, lo, hi)
